@@ -197,6 +197,12 @@ def main(argv=None):
         print("baseline written: %d clauses" % len(proved_clauses))
     lost_units = sorted(b for b in baseline.get("units", []) if b not in {u["name"] for u in units})
 
+    # syntactic scans (single-writer / ownership) ---------------------------
+    scan_results = []
+    if P.get("scans"):
+        from .scans import run_scans
+        scan_results = run_scans(repo, P["scans"])
+
     # known findings ------------------------------------------------------
     kf_all = json.load(open(os.path.join(VERIF, "known_findings.json")))
     kfs = [k for k in kf_all["findings"] if k["property"] == prop]
@@ -217,7 +223,8 @@ def main(argv=None):
     driver_result = None
     failed_clauses = sorted({clause_of(ob["name"]) for ob in failed})
     engine_errors_early = [u for u in units if u.get("error")]
-    if failed_clauses or tier == "thorough" or P.get("always_native") or engine_errors_early:
+    scans_failed = any(not x["ok"] for x in scan_results) if P.get("scans") else False
+    if failed_clauses or tier == "thorough" or P.get("always_native") or engine_errors_early or scans_failed:
         if P.get("driver"):
             os.makedirs(replay_dir, exist_ok=True)
             out_json = os.path.join(replay_dir, "native_search.json")
@@ -260,6 +267,16 @@ def main(argv=None):
         else:
             undecided.append(cl)
     # a failing native input without any failed obligation is a hole in the contracts: report it too
+    for sr in scan_results:
+        if sr["ok"]:
+            continue
+        rp = os.path.join(replay_dir, re.sub(r"[^A-Za-z0-9_.-]+", "_", sr["name"]) + ".json")
+        os.makedirs(replay_dir, exist_ok=True)
+        json.dump({"property": prop, "obligation": sr["name"], "detail": sr["detail"], "native_failing_inputs": []}, open(rp, "w"), indent=1)
+        if sr["name"].startswith("scan:no-leak"):
+            violations.append((sr["name"], rp, " no-failing-input-found"))
+        else:
+            undecided.append(sr["name"] + " (a function outside the contracts writes this field: it needs a contract)")
     native_fail = [f for f in native_fail if f.get("key") not in matched_native]
     if native_fail:
         rp = os.path.join(replay_dir, "native_only.json")
@@ -305,6 +322,7 @@ def main(argv=None):
             "clauses_proved": len(proved_clauses), "clauses_in_reference_baseline": len(base_clauses),
             "known_findings_reproduced": kf_repro, "samples": samples,
             "native_battery": {k: driver_result.get(k) for k in ("evaluations", "distinct", "rule", "failures_found")} if driver_result else None,
+            "syntactic_scans": [{"name": x["name"], "ok": x["ok"], "detail": x["detail"][:600]} for x in scan_results],
             "source_sha": repo.sha,
             "explanation": P.get("explanation", ""),
         },
